@@ -195,6 +195,9 @@ def _run_check(files, quiet):
     table = {name: ms for name, ms in files}
     con = RecConsole()
     saved = (chk.scan_file, chk.lex, chk.__dict__.get("open"), chk.generate_exclude_spec, chk.get_lexer_for_filename, crmod.Console, crmod.rich)
+    saved_rf = chk.__dict__.get("_read_file")
+    if saved_rf is not None:     # check_file reads through the scanner's _read_file
+        chk._read_file = lambda p: "<" + Path(p).name + ">"
     chk.lex = lambda lexer, code, fc=True: code            # the "tokens" are just the file's identity
     chk.scan_file = lambda tokens, language: list(table[tokens[1:-1]])
     chk.open = lambda p, *a, **k: _FakeFile(Path(p).name)
@@ -211,6 +214,8 @@ def _run_check(files, quiet):
         return code, con.texts()
     finally:
         chk.scan_file, chk.lex, _o, chk.generate_exclude_spec, chk.get_lexer_for_filename, crmod.Console, crmod.rich = saved
+        if saved_rf is not None:
+            chk._read_file = saved_rf
         if _o is None:
             del chk.open
         else:
